@@ -1544,6 +1544,7 @@ func (m *ArpXHaField) UnmarshalBinary(data []byte) error {
 	if len(data) < int(m.Len()) {
 		return errors.New("The byte array has wrong size to unmarshal ArpXHaField message")
 	}
+	m.ArpHa = make([]byte, 6)
 	copy(m.ArpHa, data[:6])
 	return nil
 }
